@@ -62,11 +62,12 @@ type Model struct {
 	FieldN   []string
 	AsmFiles []string
 
-	retSelf  map[*ssa.Function]bool
-	ctorMemo map[*ssa.Function]bool
-	live    map[*ssa.Function][]bool
-	idom    map[*ssa.Function][]int
-	ipdom   map[*ssa.Function][]int
+	retSelf   map[*ssa.Function]bool
+	ctorMemo  map[*ssa.Function]bool
+	storeSets map[*ssa.Function]map[int]map[int]*StoreSet
+	live      map[*ssa.Function][]bool
+	idom      map[*ssa.Function][]int
+	ipdom     map[*ssa.Function][]int
 }
 
 // Load type-checks /repo under the given configuration and builds SSA.
